@@ -251,6 +251,26 @@ class SymList:
         self.f = lambda i: _pick_or(to_z3(i) == to_z3(n0), v, f0, i)
 
 
+class MaybeNan:
+    """a float that may be NaN: flag `isnan` (z3 Bool) and the value `val` (z3 Real) that holds when it is not.
+    Model R has no NaN among the reals; the few places where the library produces and tests for NaN on purpose
+    (undefined statistics) carry it this way.  Arithmetic on a MaybeNan is not supported."""
+
+    def __init__(self, isnan, val):
+        self.isnan = isnan
+        self.val = val
+
+    @staticmethod
+    def of(v):
+        if isinstance(v, MaybeNan):
+            return v
+        if isinstance(v, Opaque) and getattr(v, 'is_nan', False):
+            return MaybeNan(z3.BoolVal(True), z3.RealVal(0))
+        if is_sym(v) or isinstance(v, (int, float)):
+            return MaybeNan(z3.BoolVal(False), to_real(v))
+        raise Unsupported('not a float: %r' % type(v))
+
+
 def _pick_or(cond, v, f0, i):
     c = simp(cond)
     if c is True:
@@ -258,6 +278,9 @@ def _pick_or(cond, v, f0, i):
     if c is False:
         return f0(i)
     old = f0(i)
+    if any(isinstance(x, MaybeNan) or (isinstance(x, Opaque) and getattr(x, 'is_nan', False)) for x in (v, old)):
+        a, b = MaybeNan.of(v), MaybeNan.of(old)
+        return MaybeNan(z3.If(c, a.isnan, b.isnan), z3.If(c, a.val, b.val))
     if is_sym(v) or isinstance(v, (int, float, bool)):
         return ite(c, v, old)
     if isinstance(v, Opaque) and isinstance(old, Opaque) and v.name == old.name and hasattr(v, 'key') and hasattr(old, 'key'):
@@ -922,6 +945,15 @@ class Scalars:
         if isinstance(a, Opaque) and isinstance(b, Opaque) and a.name in ('datetime', 'timedelta'):
             from . import models_time
             return models_time.dt_compare(self.I, op, a, b)
+        if any(isinstance(x, Opaque) and x.name == 'inf' for x in (a, b)):
+            # model R: every real is finite and NaN equals nothing - a float value is never equal to +-inf
+            other = b if (isinstance(a, Opaque) and a.name == 'inf') else a
+            if is_sym(other) or isinstance(other, (int, float, MaybeNan)) or (isinstance(other, Opaque) and getattr(other, 'is_nan', False)):
+                if isinstance(op, ast.Eq):
+                    return False
+                if isinstance(op, ast.NotEq):
+                    return True
+            raise Unsupported('ordering against infinity')
         if not is_sym(a) and not is_sym(b):
             return self._concrete_compare(op, a, b)
         if a is None or b is None:
@@ -1021,6 +1053,8 @@ class Scalars:
     def neg(self, v):
         if isinstance(v, Arr):
             return self.I.lib.arr_unop('neg', v)
+        if isinstance(v, Opaque) and v.name == 'inf':
+            return Opaque('inf', sign=-v.sign)
         if is_sym(v):
             return -to_int_of_bool(v)
         return -v
